@@ -1331,7 +1331,8 @@ class Kconfig(object):
                 )
             )
 
-            self.set_value_and_source(sym, val if val[0] not in ("'", '"') else val[1:-1], filename)
+            # val[:1]: the value may be empty (the alias of a number option that has no value is written as CONFIG_OLD=)
+            self.set_value_and_source(sym, val if val[:1] not in ("'", '"') else val[1:-1], filename)
             return sym
 
         in_deprecated_block = False
